@@ -112,6 +112,13 @@ class SliceT(T):
         self.lo, self.hi = lo, hi
 
 
+class BoundTo(T):
+    """instance attribute bound to one of the object's own methods (e.g. subjac.apply_fwd)"""
+
+    def __init__(self, method):
+        self.method = method
+
+
 class ViewOf(T):
     """1-d slice view base[lo:hi] of an earlier array parameter; lo/hi are named sizes."""
 
@@ -137,7 +144,7 @@ class Assumed:
     """Assumed (unchecked) contract for an external / opaque callee, matched by call text."""
 
     def __init__(self, returns=None, modifies=(), ensures=(), requires=(), may_raise=(),
-                 note='', ghost=None):
+                 note='', ghost=None, returns_expr=None):
         self.returns = returns
         self.modifies = tuple(modifies)
         self.ensures = tuple(ensures)
@@ -145,6 +152,7 @@ class Assumed:
         self.may_raise = tuple(may_raise)
         self.note = note
         self.ghost = ghost
+        self.returns_expr = returns_expr      # result is the value of this expression (e.g. an attribute)
 
 
 class Contract:
